@@ -12,6 +12,7 @@ import (
 )
 
 type SolverStats struct {
+	CrossChecked, CrossAgree, CrossDisagree, CrossInconclusive int
 	Queries int
 	Sat     int
 	Unsat   int
@@ -38,6 +39,8 @@ type Solver struct {
 	inPrefix bool
 	lvDefs   [][]int    // term ids defined at each push level (index 0 = base)
 	lvDecls  [][]string // names declared at each push level
+	CrossEvery int // re-decide every n-th query with two other solvers (0: off)
+	CrossMax   int
 }
 
 func (s *Solver) push() {
@@ -296,6 +299,9 @@ func (s *Solver) Check(assumps []*Term, keepScope bool, want ...*Term) string {
 			all := append(append([]*Term{}, s.prefix...), assumps...)
 			os.WriteFile(fmt.Sprintf("/tmp/slow_%d_%d.smt2", os.Getpid(), s.nq), []byte(Script(all, nil)), 0644)
 		}
+	}
+	if s.CrossEvery > 0 && s.nq%s.CrossEvery == 0 && s.Stats.CrossChecked < s.CrossMax && (res == "sat" || res == "unsat") {
+		s.crossCheck(assumps, res)
 	}
 	switch res {
 	case "sat":
@@ -577,4 +583,43 @@ func (s *Solver) CheckWith(pc []*Term, extra *Term, keepScope bool, want ...*Ter
 		as = []*Term{extra}
 	}
 	return s.Check(as, keepScope, want...)
+}
+
+
+// crossCheck re-decides the current query (prefix and assumptions) as a standalone script
+// with two other solvers and records whether they agree with the primary answer.
+func (s *Solver) crossCheck(assumps []*Term, res string) {
+	all := append(append([]*Term{}, s.prefix...), assumps...)
+	script := Script(all, nil)
+	s.Stats.CrossChecked++
+	agree, disagree := 0, 0
+	type alt struct {
+		bin  string
+		args []string
+		pre  string
+	}
+	for _, a := range []alt{{"z3", []string{"-T:20"}, ""}, {"cvc5", []string{"--tlimit=20000"}, "(set-logic ALL)\n"}} {
+		if _, err := exec.LookPath(a.bin); err != nil {
+			continue
+		}
+		if a.bin == "z3" && strings.HasSuffix(s.bin, "/z3") {
+			continue // same binary as the primary
+		}
+		r, _, _ := OneShot(a.bin, a.args, a.pre+script, 25*time.Second)
+		switch {
+		case r == res:
+			agree++
+		case r == "sat" || r == "unsat":
+			disagree++
+			fmt.Fprintf(os.Stderr, "SOLVER DISAGREEMENT: primary %s, %s says %s\n", res, a.bin, r)
+		}
+	}
+	switch {
+	case disagree > 0:
+		s.Stats.CrossDisagree++
+	case agree > 0:
+		s.Stats.CrossAgree++
+	default:
+		s.Stats.CrossInconclusive++
+	}
 }
